@@ -54,6 +54,7 @@ static const char *EPW[] = { "swprintf_s", "vswprintf_s", "snwprintf_s", "vsnwpr
 #define NEP 14
 static char cbuf[8192]; static wchar_t wbuf[2048];
 static FILE *sink;                       /* memory stream for stream output */
+static size_t g_cdmax = 4096, g_wdmax = 1024; static int g_tiny;     /* dmax handed to the buffer entry points; the truncating ones are run a second time with dmax 3 */
 static FILE *osink; static int g_other;    /* a stream of the other orientation (an earlier write of the other family has fixed it): history for the stream entry points */
 static const char *epname(int wide, int ep);
 static FILE *win, *win2;                 /* wide-oriented input streams (real temp files) */
@@ -64,13 +65,13 @@ static char *sink_mem; static size_t sink_len;
 static int vcall(int ep, int wide, const void *fmt, ...) {
     va_list ap; va_start(ap, fmt); int r = 0;
     if (!wide) switch (ep) {
-        case 1: r = p_vsprintf(cbuf, 4096, BOSU, fmt, ap); break; case 3: r = p_vsnprintf(cbuf, 4096, BOSU, fmt, ap); break;
+        case 1: r = p_vsprintf(cbuf, g_cdmax, BOSU, fmt, ap); break; case 3: r = p_vsnprintf(cbuf, g_cdmax, BOSU, fmt, ap); break;
         case 5: r = p_vprintf(fmt, ap); break; case 7: r = p_vfprintf(sink, fmt, ap); break;
         case 9: r = p_vsscanf("7 7 7 7", fmt, ap); break;
         case 11: { FILE *f = fmemopen((void *)"7 7 7 7", 7, "r"); r = p_vfscanf(f, fmt, ap); fclose(f); break; }
         case 13: r = p_vscanf(fmt, ap); break;
     } else switch (ep) {
-        case 1: r = p_vswprintf(wbuf, 1024, BOSU, fmt, ap); break; case 3: r = p_vsnwprintf(wbuf, 1024, BOSU, fmt, ap); break;
+        case 1: r = p_vswprintf(wbuf, g_wdmax, BOSU, fmt, ap); break; case 3: r = p_vsnwprintf(wbuf, g_wdmax, BOSU, fmt, ap); break;
         case 5: r = p_vwprintf(fmt, ap); break; case 7: r = p_vfwprintf(sink, fmt, ap); break;
         case 9: r = p_vswscanf(L"7 7 7 7", fmt, ap); break;
         case 11: rewind(win); r = p_vfwscanf(win, fmt, ap); break;
@@ -81,13 +82,13 @@ static int vcall(int ep, int wide, const void *fmt, ...) {
 static int call(int ep, int wide, const void *fmt) {
     if (ep & 1) return vcall(ep, wide, fmt, ARGS);
     if (!wide) switch (ep) {
-        case 0: return p_sprintf(cbuf, 4096, BOSU, fmt, ARGS); case 2: return p_snprintf(cbuf, 4096, BOSU, fmt, ARGS);
+        case 0: return p_sprintf(cbuf, g_cdmax, BOSU, fmt, ARGS); case 2: return p_snprintf(cbuf, g_cdmax, BOSU, fmt, ARGS);
         case 4: return p_printf(fmt, ARGS); case 6: return p_fprintf(sink, fmt, ARGS);
         case 8: return p_sscanf("7 7 7 7", fmt, ARGS);
         case 10: { FILE *f = fmemopen((void *)"7 7 7 7", 7, "r"); int r = p_fscanf(f, fmt, ARGS); fclose(f); return r; }
         case 12: return p_scanf(fmt, ARGS);
     } else switch (ep) {
-        case 0: return p_swprintf(wbuf, 1024, BOSU, fmt, ARGS); case 2: return p_snwprintf(wbuf, 1024, BOSU, fmt, ARGS);
+        case 0: return p_swprintf(wbuf, g_wdmax, BOSU, fmt, ARGS); case 2: return p_snwprintf(wbuf, g_wdmax, BOSU, fmt, ARGS);
         case 4: return p_wprintf(fmt, ARGS); case 6: return p_fwprintf(sink, fmt, ARGS);
         case 8: return p_swscanf(L"7 7 7 7", fmt, ARGS);
         case 10: rewind(win); return p_fwscanf(win, fmt, ARGS);
@@ -151,6 +152,8 @@ static void one(int wide, int ep, const char *fmt) {
     static wchar_t wf[5000]; const void *fp = fmt;
     if (wide) { int i = 0; for (; fmt[i]; i++) wf[i] = (unsigned char)fmt[i]; wf[i] = 0; fp = wf; }
     int scan = ep >= 8;
+    /* numbered arguments (%3$d): a number that names none of the six arguments passed makes the call itself invalid (libc would read an argument that is not there) */
+    for (const char *q = fmt; *q; q++) if (*q >= '0' && *q <= '9') { long v = 0; const char *e = q; while (*e >= '0' && *e <= '9') v = v * 10 + (*e++ - '0'); if (*e == '$' && (v < 1 || v > 6)) return; q = e - 1; if (!*e) break; }
     Parse p; parse(fmt, scan, &p);
     memcpy(sent, sent0, sizeof sent0);
     /* case encoding: an optional pad<N>: prefix stands for N literal 'x' characters */
@@ -193,7 +196,8 @@ static void one(int wide, int ep, const char *fmt) {
     }
 }
 
-static const char *epname(int wide, int ep) { static char b[64]; if (!g_other) return (wide ? EPW : EPN)[ep]; snprintf(b, sizeof b, "%s@%s-oriented-stream", (wide ? EPW : EPN)[ep], wide ? "byte" : "wide"); return b; }
+static const char *epname(int wide, int ep) { static char b[64]; if (g_tiny) { snprintf(b, sizeof b, "%s@dmax3", (wide ? EPW : EPN)[ep]); return b; } if (!g_other) return (wide ? EPW : EPN)[ep]; snprintf(b, sizeof b, "%s@%s-oriented-stream", (wide ? EPW : EPN)[ep], wide ? "byte" : "wide"); return b; }
+static void one_tiny(int wide, int ep, const char *fmt) { g_tiny = 1; g_cdmax = g_wdmax = 3; one(wide, ep, fmt); g_cdmax = 4096; g_wdmax = 1024; g_tiny = 0; }
 static void one_other(int wide, int ep, const char *fmt) { FILE *k = sink; sink = osink; g_other = 1; one(wide, ep, fmt); g_other = 0; sink = k; }
 
 int main(int argc, char **argv) {
@@ -218,7 +222,10 @@ int main(int argc, char **argv) {
     mprotect(farea, 4096, PROT_NONE); mprotect(farea + 4096 * (FPAGES - 1), 4096, PROT_NONE);
     sent = mmap((void *)0x20000, 4096, PROT_READ | PROT_WRITE, MAP_PRIVATE | MAP_ANONYMOUS | MAP_FIXED, -1, 0);
     if (sent == MAP_FAILED) { perror("mmap low"); return 2; }
-    for (int i = 0; i < NARG; i++) { unsigned char *b = sent0 + 64 * i; memset(b, 0xA5, 64); memset(b, 0, 8); b[0] = 'a' + i; A[i] = sent + 64 * i; }
+    /* every argument slot, read as a string, is the text "<letter>%n" (narrow or wide): formatted data is never to be interpreted as a format */
+    for (int i = 0; i < NARG; i++) { unsigned char *b = sent0 + 64 * i; memset(b, 0xA5, 64); memset(b, 0, 16);
+        if (wide) { ((wchar_t *)b)[0] = L'a' + i; ((wchar_t *)b)[1] = L'%'; ((wchar_t *)b)[2] = L'n'; } else { b[0] = 'a' + i; b[1] = '%'; b[2] = 'n'; }
+        A[i] = sent + 64 * i; }
     /* stdout -> memory stream */
     FILE *out = fdopen(dup(1), "w"); setvbuf(out, NULL, _IOLBF, 0);
     if (wide) {
@@ -234,7 +241,7 @@ int main(int argc, char **argv) {
     { static char *om; static size_t ol; static wchar_t *wom; if (wide) { osink = open_memstream(&om, &ol); fputc('x', osink); } else { osink = open_wmemstream(&wom, &ol); fputwc(L'x', osink); } }
     struct sigaction sa; memset(&sa, 0, sizeof sa); sa.sa_sigaction = on_sig; sa.sa_flags = SA_NODEFER | SA_SIGINFO; sigaction(SIGSEGV, &sa, NULL); sigaction(SIGABRT, &sa, NULL); sigaction(SIGBUS, &sa, NULL); sigaction(SIGFPE, &sa, NULL);
     if (replay) {
-        int ep = -1, other = strchr(argv[3], '@') != NULL; char epb[64]; snprintf(epb, sizeof epb, "%.*s", (int)strcspn(argv[3], "@"), argv[3]);
+        int ep = -1, tiny = strstr(argv[3], "@dmax3") != NULL, other = !tiny && strchr(argv[3], '@') != NULL; char epb[64]; snprintf(epb, sizeof epb, "%.*s", (int)strcspn(argv[3], "@"), argv[3]);
         for (int i = 0; i < NEP; i++) if (!strcmp((wide ? EPW : EPN)[i], epb)) ep = i;
         static char fmt[5200]; int n = 0; const char *enc = argv[4];
         if (!strncmp(enc, "pad", 3)) { long np = atol(enc + 3); for (; n < np; n++) fmt[n] = 'x'; enc = strchr(enc, ':') + 1; }
@@ -242,9 +249,9 @@ int main(int argc, char **argv) {
         if (ep < 0) return 2;
         /* a case is replayed as the history it was found in: an accepted, conversion-free format of the same length (hence at the
          * same address) goes through the same entry point first, so that a verdict cached from an earlier call shows again */
-        { static char neutral[5200]; memset(neutral, 'x', n); neutral[n] = 0; if (other) one_other(wide, ep, neutral); else one(wide, ep, neutral); nsig = 0; n_viol = 0; }
+        { static char neutral[5200]; memset(neutral, 'x', n); neutral[n] = 0; if (tiny) one_tiny(wide, ep, neutral); else if (other) one_other(wide, ep, neutral); else one(wide, ep, neutral); nsig = 0; n_viol = 0; }
         verbose = 1; FILE *keep = stdout; (void)keep;
-        if (other) one_other(wide, ep, fmt); else one(wide, ep, fmt);
+        if (tiny) one_tiny(wide, ep, fmt); else if (other) one_other(wide, ep, fmt); else one(wide, ep, fmt);
         if (nsig) { fprintf(out, "VERDICT violation %s\n", sigs[0]); return 1; }
         fprintf(out, "VERDICT ok\n"); return 0;
     }
@@ -258,7 +265,8 @@ int main(int argc, char **argv) {
             long t = c; for (int i = 0; i < len; i++) { fmt[i] = alpha[t % na]; t /= na; } fmt[len] = 0;
             nformats++;
             for (int ep = 0; ep < NEP; ep++) one(wide, ep, fmt);
-            one_other(wide, 6, fmt); one_other(wide, 7, fmt);            /* fprintf_s/vfprintf_s (fwprintf_s/vfwprintf_s) on a stream of the other orientation */
+            one_other(wide, 6, fmt); one_other(wide, 7, fmt);
+            one_tiny(wide, 2, fmt); one_tiny(wide, 3, fmt);                /* the truncating entry points with a result that does not fit */            /* fprintf_s/vfprintf_s (fwprintf_s/vfwprintf_s) on a stream of the other orientation */
             if ((nformats & 255) == 0) { rewind(sink); fflush(stdout); rewind(stdout); rewind(osink); }
         }
     }
